@@ -40,6 +40,13 @@ func vUnwind(n int)          {}
 func vSteps(n int)           {}
 func vSliceCap(n int)        {}
 func vSincePositive()        {}
+
+// vMarkCursorUp: from now on a cursor-up sequence (ESC [ n A) counts as order mark 15 in vTextSeq, so that the
+// position of the cursor movement relative to the marked pieces of one write can be read back.
+var vMarkCUU bool
+
+func vMarkCursorUp() { vMarkCUU = true }
+
 func vStartAgo(ns int64) time.Time { return time.Now().Add(-time.Duration(ns)) }
 func vParam(name string) int { return int(vModel[name]) }
 
@@ -94,6 +101,9 @@ func vMakeWN(w, n int) string {
 	}
 	for sb.Len()+2 <= n {
 		sb.WriteString("\u0301")
+	}
+	if sb.Len() < n {
+		sb.WriteString("\x01") // one byte short: a control character (no columns)
 	}
 	return sb.String()
 }
@@ -187,7 +197,20 @@ func vMarkText(w, nl, d int) string {
 func vTextSeq(s string) int {
 	seq := 0
 	prev := rune(0)
-	for _, r := range s {
+	rs := []rune(s)
+	for i, r := range rs {
+		if vMarkCUU && r == 'A' && i >= 3 {
+			// ESC [ digits A
+			j := i - 1
+			for j >= 0 && rs[j] >= '0' && rs[j] <= '9' {
+				j--
+			}
+			if j >= 1 && j < i-1 && rs[j] == '[' && rs[j-1] == 0x1b {
+				seq = seq*16 + 15
+				prev = 0
+				continue
+			}
+		}
 		if r >= 'a' && r <= 'o' {
 			if r != prev {
 				seq = seq*16 + int(r-'a'+1)
